@@ -1448,6 +1448,7 @@ SURF_OPT_CHOICES = [
     {"CL0": 0.1, "CD0": 0.02},
     {"S_ref_type": "projected", "k_lam": 0.15},
     {"ref_axis_pos": 0.4},
+    {"fem_origin": 0.35},  # a no-op for tube spars; on a wingbox surface it is a left-over key (accepted, documented as tube-only)
     {"k_lam": 0.0},  # fully turbulent: admissible, and the laminar/transition terms must drop out cleanly
 ]
 
